@@ -601,6 +601,99 @@ def r11_11(ctx, rep):
            "the output assignments are not built as Assignment(<key>, <fold of that key's values>) in a loop over %s.items()" % grouped)
 
 
+@SPEC.rule(
+    "R11.14",
+    "every subscript, dimension and operand is taken at the position it was computed for: no function of the CasADi generator reads a for-loop's variable after that loop has ended (the value the last iteration left behind)",
+)
+def r11_14(ctx, rep):
+    from ._literal import no_stale_loop_variables
+    no_stale_loop_variables(ctx, rep, "R11.14", GEN, "the CasADi generator")
+
+
+@SPEC.rule(
+    "R11.12",
+    "values meet the symbols they belong to: where Generator.get_integer builds ca.Function(<name>, <inputs>, ...) and calls it with a list of "
+    "values, that list is filled in one pass over <inputs> itself (an empty list, appended to inside a single `for x in <inputs>` loop, or one "
+    "unfiltered comprehension over it) — values collected group by group (loop indices first, parameters after) are paired with the inputs by "
+    "position, and x[n + 1 - i] is evaluated with n and i exchanged",
+)
+def r11_12(ctx, rep):
+    R = "R11.12"
+    fn = ctx.func(GEN, "Generator.get_integer", R)
+    site = GEN + ":Generator.get_integer"
+    n = 0
+    # (inputs, values) pairs: F = ca.Function(name, INPUTS, ...) ... F.call(VALS) / F(*VALS), or the same in one expression
+    pairs = []
+    ctors = {}
+    for st in walk_local(fn):
+        if isinstance(st, ast.Assign) and isinstance(st.value, ast.Call) and (call_name(st.value) or "").endswith("Function") and len(st.value.args) >= 2 \
+                and isinstance(st.value.args[1], ast.Name) and isinstance(st.targets[0], ast.Name):
+            ctors[st.targets[0].id] = st.value.args[1].id
+    for c in calls(fn):
+        callee = c.func.value if isinstance(c.func, ast.Attribute) and c.func.attr == "call" else c.func
+        inputs = None
+        if isinstance(callee, ast.Name) and callee.id in ctors:
+            inputs = ctors[callee.id]
+        elif isinstance(callee, ast.Call) and (call_name(callee) or "").endswith("Function") and len(callee.args) >= 2 and isinstance(callee.args[1], ast.Name):
+            inputs = callee.args[1].id
+        if inputs is None or not c.args:
+            continue
+        a0 = c.args[0].value if isinstance(c.args[0], ast.Starred) else c.args[0]
+        if isinstance(a0, ast.Name):
+            pairs.append((inputs, a0.id))
+    for inputs, vals in pairs:
+        if True:
+            n += 1
+            problems = []
+            loops = [lp for lp in walk_local(fn) if isinstance(lp, ast.For) and is_name(lp.iter, inputs)]
+            in_loop = {id(x) for lp in loops for x in ast.walk(lp)}
+            for x in walk_local(fn):
+                if isinstance(x, ast.Assign) and any(is_name(t, vals) for t in x.targets):
+                    v = x.value
+                    ok = (isinstance(v, ast.List) and not v.elts) or (isinstance(v, (ast.ListComp,)) and len(v.generators) == 1 and is_name(v.generators[0].iter, inputs)
+                                                                      and not v.generators[0].ifs)
+                    if not ok:
+                        problems.append("line %d: %s" % (x.lineno, norm(x)[:60]))
+                elif isinstance(x, ast.AugAssign) and is_name(x.target, vals):
+                    problems.append("line %d: %s" % (x.lineno, norm(x)[:60]))
+                elif isinstance(x, ast.Call) and isinstance(x.func, ast.Attribute) and is_name(x.func.value, vals) and x.func.attr in ("append", "extend", "insert"):
+                    if id(x) not in in_loop or x.func.attr != "append":
+                        problems.append("line %d: %s outside the loop over %s" % (x.lineno, norm(x)[:50], inputs))
+            if len(loops) > 1:
+                problems.append("%d loops over %s" % (len(loops), inputs))
+            rep.ob(R, site, "`%s` is filled in one pass over `%s`" % (vals, inputs), not problems,
+                   "%s — the k-th value is no longer the value of the k-th input symbol" % "; ".join(problems[:3]))
+    if n < 1:
+        raise MechanismMissing(R, "no ca.Function(..., <inputs>, ...) called with a value list found in get_integer")
+
+
+@SPEC.rule(
+    "R11.13",
+    "the derivative of a slice is the same slice of the derivative: where Generator.get_derivative answers for an already indexed symbol, "
+    "every value it returns is the derivative symbol subscripted with a slice whose start, stop and step all come from the indexed symbol's "
+    "own slice — der(x[2:3]) is two elements",
+)
+def r11_13(ctx, rep):
+    from ..pyutil import inlined
+    R = "R11.13"
+    fn = ctx.func(GEN, "Generator.get_derivative", R)
+    site = GEN + ":Generator.get_derivative"
+    branch = [b for b in ast.walk(fn) if isinstance(b, ast.If) and "OP_GETNONZEROS" in norm(b.test)]
+    if not branch:
+        raise MechanismMissing(R, "branch for already indexed symbols (OP_GETNONZEROS) not found in get_derivative")
+    body = [st for st in ast.walk(fn) if isinstance(st, ast.stmt)]
+    rets = [r for st in branch[0].body for r in ast.walk(st) if isinstance(r, ast.Return) and r.value is not None]
+    if not rets:
+        raise MechanismMissing(R, "the indexed-symbol branch returns nothing")
+    for r in rets:
+        v = inlined(r.value, body)
+        ok = isinstance(v, ast.Subscript) and isinstance(v.slice, ast.Slice) and all(
+            part is not None and key in norm(part) and "slice" in norm(part) for part, key in ((v.slice.lower, "start"), (v.slice.upper, "stop"), (v.slice.step, "step")))
+        rep.ob(R, site, "`%s` keeps start, stop and step" % norm(r)[:60], ok,
+               "the derivative symbol is subscripted with `%s`: a slice of several elements is differentiated as its first element only (and broadcast)"
+               % (norm(v.slice)[:60] if isinstance(v, ast.Subscript) else norm(v)[:60]))
+
+
 # -- seeded variants ---------------------------------------------------------
 from ._mut import replace_in_func  # noqa: E402
 
@@ -748,3 +841,20 @@ def _m_positional(mod):
         return False
 
     return mod if replace_in_func(mod, "Generator.exitIfStatement", edit) else None
+
+
+@SPEC.mutant("values gathered loop indices first", GEN, "R11.12", "filled in one pass")
+def _m_vals_groups(mod):
+    def edit(fn):
+        for n in ast.walk(fn):
+            for f in ("body", "orelse"):
+                lst = getattr(n, f, None)
+                if isinstance(lst, list):
+                    for i, st in enumerate(lst):
+                        if isinstance(st, ast.For) and norm(st.iter) == "free_vars":
+                            lst[i] = ast.parse("vals = [self.for_loops[-1].index_variable for v in free_vars if self.for_loops and v.name() == self.for_loops[-1].name]").body[0]
+                            lst.insert(i + 1, ast.parse("vals += [self.get_integer(self.current_class.symbols[v.name()].value) for v in free_vars if not (self.for_loops and v.name() == self.for_loops[-1].name)]").body[0])
+                            return True
+        return False
+
+    return mod if replace_in_func(mod, "Generator.get_integer", edit) else None
